@@ -1,6 +1,6 @@
 (* Run/R1cs.v — executed R1CS cases: the model's prover and verifier on a harness-generated
    program, with the recorded challenges and RNG draws; prints every observable as list (list Z). *)
-Require Export BP.Run.Exec BP.Run.Ast.
+Require Export BP.Run.Exec BP.Run.Ast BP.Model.Relations.
 Require Import Bignums.BigZ.BigZ.
 Require Import Coq.Strings.Ascii.
 Export List ListNotations.
@@ -199,7 +199,9 @@ Section Run.
 
   Definition run_r1cs : list (list Z) :=
     let RO_p := oracle (rc_chal_p c) in
-    let RO_v := oracle (rc_chal_v c) in
+    (* the verifier's recorded challenges; if the implementation stopped early, continue with the prover's
+       (equal on an honest run; only used to evaluate the relations for the search) *)
+    let RO_v := oracle (rc_chal_v c ++ skipn (length (rc_chal_v c)) (rc_chal_p c)) in
     let prog_p := denote_c (map (@cop_map Zc K cv) (rc_prog c)) in
     let '(s1, ev1) := p_run B0 Bb0 prog_p (p_new (init_tr (rc_label c))) in
     let '(e1z, e1p) := enc_events ev1 in
@@ -241,7 +243,18 @@ Section Run.
           | Err e => [ [12; enc_err e] ]%Z
           | Ok vo =>
             let '(ev2z, _) := enc_events (vo_events vo) in
-            [ [12; 0]; (11 :: ev2z); (13 :: map toZ (vo_scalars vo)); (14 :: enc_tr (v_tr (vo_state vo))) ]%Z
+            (* the separate relations (a), (b), (c), evaluated from their specification with explicit folding *)
+            let b2z (b : bool) : Z := if b then 1%Z else 0%Z in
+            let ch := vo_chal vo in
+            let cy := nth 0 ch f0 in let cu := nth 2 ch f0 in let cx := nth 3 ch f0 in let cw := nth 4 ch f0 in
+            let n := v_num (vo_state vo) in
+            let id_ok := negb (existsb mzerob ([A_I1 pf; A_O1 pf; S1 pf; T_1 pf; T_3 pf; T_4 pf; T_5 pf; T_6 pf]
+                                               ++ ipp_L (ipp pf) ++ ipp_R (ipp pf))) in
+            let rt := R_t Bv Bbv (vo_w vo) cy cx n (vo_padded vo) (v_V (vo_state vo)) pf in
+            let ri := R_ipp Bv Bbv (vo_w vo) cy cu cx cw (vo_ipp_chal vo) (vo_n1 vo) n (vo_padded vo)
+                            (gensG (rc_cap_v c)) (gensH (rc_cap_v c)) pf in
+            [ [12; 0]; (11 :: ev2z); (13 :: map toZ (vo_scalars vo)); (14 :: enc_tr (v_tr (vo_state vo)));
+              [17; b2z id_ok; b2z (mzerob rt); b2z (mzerob ri)] ]%Z
           end in
         let verdict := verify RO_v Bv Bbv (gensG (rc_cap_v c)) (gensH (rc_cap_v c)) v1 pf in
         (10 :: ev1z)%Z :: obs_s ++ [ [15; code_of verdict] ]%Z
